@@ -482,6 +482,12 @@ def gen_reqs(rng, c, windows):
             n = rng.weighted([(rng.randint(0, 600), 2), (rng.randint(0, min(5 * gs + 3, 700) * SECTOR + 100), 4),
                               (-1 if size - off < 400_000 else 1000, 1), (min(size, 300_000), 1)])
             reqs.append(["bytes", off, n])
+    # one request well above a MiB where the extent is large enough: long runs of absent / zero grains are only
+    # exercised by requests longer than any fixed zero buffer
+    if cap > 2600 and c["kind"] != "flat":
+        s0 = pick_sector()
+        s0 = max(0, min(s0, cap - 2600))
+        reqs.append(["sectors", s0, min(cap - s0, rng.randint(2200, 6000))])
     # history on one object: the extent read front to back in equal chunks (a position or table remembered from the
     # previous request must not leak into the next one), for extents small enough to scan
     if cap <= 3000 and rng.chance(0.5):
